@@ -118,6 +118,8 @@ def _ncells(line):
 def classify(x, contract, nw, fails_without_nw, observed=None):
     """Heuristic root-cause slug from the (minimal) failing text."""
     lines = x.split('\n')
+    if contract == 'noraise':
+        return 'parser-raises-%s' % str(observed).split(':')[0].lower()
     if contract == 'c09c' and isinstance(observed, str) and \
             [l for l in observed.split('\n') if l.strip()] == [l for l in lines if l.strip()] and \
             re.search(r'^[> ]*(?:[-+*]|\d{1,9}[.)]) ', x, re.M) and re.search(r'\n[> ]*\n[> ]*\n', x):
@@ -146,7 +148,7 @@ def classify(x, contract, nw, fails_without_nw, observed=None):
         if body != '' and body.strip() == '':
             return 'whitespace-only-line-blanked'
     for i, l in enumerate(lines[:-1]):
-        if re.match(r'^[> ]*(?:[-+*]|\d{1,9}[.)]) *$', l) and i + 1 < len(lines) - 1 and \
+        if re.match(r'^[> ]*(?:(?:[-+*]|\d{1,9}[.)]) *)+$', l) and i + 1 < len(lines) - 1 and \
                 re.sub(r'^[> ]*', '', lines[i + 1]) == '':
             return 'empty-list-item-swallows-blank-lines'
     for i, l in enumerate(lines[:-2]):
